@@ -259,6 +259,40 @@ class Built:
         return [self.listener_cls[lab]() for lab in self.m.listeners]
 
 
+class _WarmEnv:
+    def call(self, *a, **k):
+        return True
+
+    async def acall(self, *a, **k):
+        return True
+
+
+def _warm_up(base_cls, events):
+    """Before the subclass is declared, an instance of the base class is created and meets
+    every event once (results irrelevant): whatever the library memoises per class or per state
+    on first use exists by the time the subclass extends the inherited states."""
+    import inspect
+    import warnings
+    old = CUR.env
+    CUR.env = _WarmEnv()
+    try:
+        with warnings.catch_warnings():
+            warnings.simplefilter("ignore")
+            w = base_cls()
+            for ev in sorted(events):
+                for _ in range(2):
+                    try:
+                        r = w.send(ev)
+                        if inspect.isawaitable(r):
+                            r.close()
+                    except Exception:   # noqa: BLE001,S110 - only the side effects matter
+                        pass
+    except Exception:   # noqa: BLE001,S110
+        pass
+    finally:
+        CUR.env = old
+
+
 def build(m: M, name="M", strict=False, extra_ns=None, split=None, falsy=False) -> Built:
     """falsy: listener objects and the model are falsy (empty collection-like / __bool__ False):
     whether an object takes part as a provider must never depend on its truth value."""
@@ -325,6 +359,7 @@ def build(m: M, name="M", strict=False, extra_ns=None, split=None, falsy=False) 
                 if p_ == "sm":
                     bns[n_] = _mk(n_, f_)
             base_cls = StateMachineMetaclass(name + "Base", (StateMachine,), bns)
+            _warm_up(base_cls, {e for t_ in m.trans[:split] for e in t_.events})
             ns = {}
         ev = list(t.events) if len(t.events) != 1 else t.events[0]
         tl = st[t.src].to(
